@@ -228,3 +228,74 @@ Example c18_ex_client_trace :
   client_startup ["a"]%char ["b"]%char e
   = [CWrite ["a"]%char; CWrite ["b"]%char; CQueue ping_frame; CSyncOk; CWrite (firstn 4 ping_frame)].
 Proof. vm_compute. reflexivity. Qed.
+
+(* ------------------------------------------------------------------ *)
+(* The remote command line (-r given): ssh.py:115-189.  What ssh carries to the
+   remote host is ONE string; the remote login shell splits it into words again.
+   For every verbosity and every assembler length the words the shell sees are
+   the interpreter, -c, and the bootstrap program — the same program text the
+   local start (no -r) passes to sys.executable directly. *)
+From Coq Require String.
+From SV Require Import Model.ShQuote Proofs.ShQuote_lemmas.
+Import String.StringSyntax.
+Delimit Scope string_scope with string.
+Local Notation Bs x := (bytes_of_string x%string) (only parsing).
+
+(* (9) shlex.quote, read back by a POSIX shell, is one word: the string itself —
+       for EVERY byte string (empty, blanks, quotes of both kinds, backslashes,
+       dollar signs, newlines, non-ASCII bytes). *)
+Theorem c18_quote_one_word : forall s, sh_words (sh_quote s) = Some [s].
+Proof. exact quote_one_word. Qed.
+Print Assumptions c18_quote_one_word.
+
+(* (10) default (posix shell, no --python): the login shell sees /bin/sh -c INNER;
+        INNER is the candidate test followed by the exec of the chosen interpreter
+        with -c and ONE quoted word that a shell reads back as the bootstrap program. *)
+Theorem c18_remote_command_posix : forall v n,
+  sh_words (pycmd KSh [] v n) =
+    Some [Bs "/bin/sh"; Bs "-c"; sh_inner (pyscript v n)] /\
+  sh_inner (pyscript v n) =
+    Bs "P=python3; $P -V 2>/dev/null || P=python; exec ""$P"" -c "
+    ++ sh_quote (pyscript v n) ++ Bs "; exit 97" /\
+  sh_words (sh_quote (pyscript v n)) = Some [pyscript v n].
+Proof.
+  intros v n. split; [exact (pycmd_sh_words (pyscript v n))|].
+  split; [reflexivity | apply quote_one_word].
+Qed.
+Print Assumptions c18_remote_command_posix.
+
+(* (11) --python given (posix shell): the words are that interpreter, -c, the program —
+        for every interpreter name/path made of characters that are literal between
+        double quotes (blanks included). *)
+Theorem c18_remote_command_python : forall python v n,
+  dq_plain python = true ->
+  sh_words (pycmd KPy python v n) = Some [python; Bs "-c"; pyscript v n].
+Proof. intros python v n Hp. apply pycmd_py_words; [exact Hp | apply pyscript_dq_plain]. Qed.
+Print Assumptions c18_remote_command_python.
+
+(* (12) --remote-shell powershell: after backtick removal the words are the
+        interpreter (python by default), -c, the program; no character PowerShell
+        would interpret is left unescaped (ps_words would answer None). *)
+Theorem c18_remote_command_powershell : forall python v n,
+  forallb ps_bare_char (or_python python) = true ->
+  ps_words (pycmd KPs python v n) = Some [or_python python; Bs "-c"; pyscript v n].
+Proof. exact pycmd_ps_words. Qed.
+Print Assumptions c18_remote_command_powershell.
+
+(* the program text is the one the local start uses: it reads exactly `n` bytes *)
+Example c18_ex_pyscript :
+  pyscript 2 1234 = Bs
+    "import sys, os; verbosity=2; stdin = os.fdopen(0, 'rb'); exec(compile(stdin.read(1234), 'assembler.py', 'exec')); sys.exit(98);".
+Proof. vm_compute. reflexivity. Qed.
+
+Example c18_ex_quote :
+  sh_quote (Bs "it's a ""test"" $x") = Bs "'it'""'""'s a ""test"" $x'" /\
+  sh_quote (Bs "/usr/bin/python3") = Bs "/usr/bin/python3" /\
+  sh_quote [] = Bs "''".
+Proof. vm_compute. repeat split; reflexivity. Qed.
+
+(* the reader is not trivially permissive: an unquoted program text is NOT one word *)
+Example c18_ex_unquoted_is_not_one_word :
+  sh_words (Bs "exec python -c " ++ pyscript 0 10) = None /\
+  sh_words (Bs "a 'b c' ""d e""\ f") = Some [Bs "a"; Bs "b c"; Bs "d e f"].
+Proof. vm_compute. split; reflexivity. Qed.
